@@ -897,6 +897,18 @@ class Database:
     def copy_state(self):
         return {n: [dict(r) for r in t.rows] for n, t in self.tables.items()}
 
+    def clone(self):
+        """Independent copy (tables share their parsed definitions, rows are copied)."""
+        import copy
+        d = Database()
+        for n, t in self.tables.items():
+            t2 = copy.copy(t)
+            t2.rows = [dict(r) for r in t.rows]
+            d.tables[n] = t2
+        d.views = dict(self.views)
+        d.foreign_keys = self.foreign_keys
+        return d
+
 
 class Connection:
     def __init__(self, db=None):
